@@ -10,10 +10,20 @@ import selectors
 EPOCH = datetime.datetime(2020, 1, 1, tzinfo=datetime.timezone.utc)     # a multiple of 86400 s
 
 
+class Livelock(RuntimeError):
+    """The code under test keeps the loop busy without virtual time ever advancing (e.g. a sleep that became non-positive)."""
+
+
 class VLoop(asyncio.SelectorEventLoop):
+    MAX_ITERS = 3000000         # loop iterations of one scenario (callers with short scenarios pass a much smaller cap)
+    MAX_SPINS = 20000           # loop iterations at one virtual instant before the run is declared live-locked
+
     def __init__(self):
         super().__init__(selectors.SelectSelector())
         self._vt = 0.0
+        self._spins = 0
+        self._spin_vt = 0.0
+        self._iters = 0
 
     def time(self):
         return self._vt
@@ -25,6 +35,17 @@ class VLoop(asyncio.SelectorEventLoop):
             self._timer_cancelled_count -= 1
             handle = heapq.heappop(self._scheduled)
             handle._scheduled = False
+        self._iters += 1
+        if self._iters > self.MAX_ITERS:
+            self._iters = 0
+            raise Livelock(f"{self.MAX_ITERS} loop iterations in one scenario (t={self._vt}): the code under test is spinning")
+        if self._vt == self._spin_vt:
+            self._spins += 1
+            if self._spins > self.MAX_SPINS:
+                self._spins = 0
+                raise Livelock(f"no progress of virtual time at t={self._vt}")
+        else:
+            self._spin_vt, self._spins = self._vt, 0
         if not self._ready and self._scheduled:
             when = self._scheduled[0]._when
             if when > self._vt:
@@ -32,10 +53,38 @@ class VLoop(asyncio.SelectorEventLoop):
         super()._run_once()
 
 
-def run(coro_fn, patch_modules=()):
+import contextlib
+import signal
+import threading
+
+
+@contextlib.contextmanager
+def wall_clock_limit(seconds: float):
+    """Raises Livelock in the main thread when the block takes longer than `seconds` of REAL time: code under test that
+    spins without ever awaiting cannot be stopped from inside the event loop."""
+    state = type("Limit", (), {"fired": False})()
+    if threading.current_thread() is not threading.main_thread():
+        yield state
+        return
+
+    def on_alarm(signum, frame):
+        state.fired = True          # the code under test may swallow the exception: the flag stays, the timer fires again
+        raise Livelock(f"no result after {seconds} s of wall-clock time")
+    old = signal.signal(signal.SIGALRM, on_alarm)
+    signal.setitimer(signal.ITIMER_REAL, seconds, 1.0)
+    try:
+        yield state
+    finally:
+        signal.setitimer(signal.ITIMER_REAL, 0)
+        signal.signal(signal.SIGALRM, old)
+
+
+def run(coro_fn, patch_modules=(), max_iters=None):
     """Run coro_fn(loop) under virtual time; utc_now() == EPOCH + loop.time()."""
     import basana.core.dt as bdt
     loop = VLoop()
+    if max_iters:
+        loop.MAX_ITERS = max_iters
     asyncio.set_event_loop(loop)
     orig = bdt.utc_now
 
